@@ -1,5 +1,5 @@
 (* C20 - text and encoding helpers. Statements only. *)
-From Plush Require Import model.Bytes model.Text proofs.TextProofs proofs.EscapeProofs.
+From Plush Require Import model.Bytes model.Text proofs.TextProofs proofs.EscapeProofs proofs.Utf8Proofs.
 
 (* truncate returns s unchanged (byte-identical, any bytes) when it has at
    most size characters *)
@@ -15,6 +15,30 @@ Theorem C20_truncate_shape : forall s size trail,
   exists k, (Z.of_nat k + Z.of_nat (rune_len trail) = size)%Z /\ (k < rune_len s)%nat /\
             truncate s size trail = encode (firstn k (decode s)) ++ trail.
 Proof. exact truncate_shape. Qed.
+
+(* read as characters, the result is s itself, or the trail alone, or the first k
+   whole characters of s followed by the characters of the trail with
+   k + |trail| = size: a multi-byte character is never split *)
+Theorem C20_truncate_characters : forall s size trail,
+  (Z.of_nat (rune_len s) <= size)%Z /\ truncate s size trail = s \/
+  (size < Z.of_nat (rune_len s))%Z /\
+  ((size <= Z.of_nat (rune_len trail))%Z /\ truncate s size trail = trail \/
+   exists k, (Z.of_nat k + Z.of_nat (rune_len trail) = size)%Z /\ (k < rune_len s)%nat /\
+             decode (truncate s size trail) = firstn k (decode s) ++ decode trail).
+Proof. exact truncate_characters. Qed.
+
+(* ... and when s is longer than size it totals at most max(size, |trail|) characters *)
+Theorem C20_truncate_bound : forall s size trail,
+  (size < Z.of_nat (rune_len s))%Z ->
+  (Z.of_nat (rune_len (truncate s size trail)) <= Z.max size (Z.of_nat (rune_len trail)))%Z.
+Proof. exact truncate_bound. Qed.
+
+(* the UTF-8 facts behind it: decoding yields Unicode scalar values only, and
+   decoding what was encoded from scalar values gives them back *)
+Theorem C20_decode_valid : forall s, Forall valid_rune (decode s).
+Proof. exact decode_valid. Qed.
+Theorem C20_decode_encode : forall rs, Forall valid_rune rs -> forall t, decode (encode rs ++ t) = rs ++ decode t.
+Proof. exact decode_encode_app. Qed.
 
 (* htmlEscape: for every byte string, no raw angle bracket or quote, and every ampersand begins an entity *)
 Theorem C20_html_escape_clean : forall s, html_clean (html_escape s) = true.
@@ -43,6 +67,9 @@ Theorem C20_copied_bytes_are_continuations : forall c r rn size,
   decode1 c r = (rn, size) -> Forall high (firstn (size - 1) r).
 Proof. exact decode1_tail_high. Qed.
 
+Print Assumptions C20_truncate_characters.
+Print Assumptions C20_truncate_bound.
+Print Assumptions C20_decode_encode.
 Print Assumptions C20_js_escape_ok.
 Print Assumptions C20_to_json_clean.
 Print Assumptions C20_truncate_short.
